@@ -130,6 +130,16 @@ func (r *recorder) last() string {
 	}
 	return r.skis[len(r.skis)-1]
 }
+func (r *recorder) has(ski string) bool {
+	r.mu.Lock()
+	defer r.mu.Unlock()
+	for _, s := range r.skis {
+		if s == ski {
+			return true
+		}
+	}
+	return false
+}
 func (r *recorder) reset() { r.mu.Lock(); r.skis = nil; r.mu.Unlock() }
 
 func (r *recorder) RemoteSKIConnected(ski string)    { r.note(ski) }
@@ -213,7 +223,12 @@ func inbound(r rowT, port int, rec *recorder) resT {
 		res.Accepted = false // the websocket was closed before any SHIP message was processed
 	}
 	time.Sleep(20 * time.Millisecond)
+	// delayed notifications of earlier rows may still arrive: the connection is attributed to the certificate's SKI if the
+	// hub named that SKI in a callback since this row started
 	res.Attributed = rec.last()
+	if rec.has(res.CertSki) {
+		res.Attributed = res.CertSki
+	}
 	return res
 }
 
